@@ -41,7 +41,7 @@ static const char* status_name(int s){ switch(s){ case 0:return "ok"; case 1:ret
 
 struct T { int st; int go; const void* waddr; int join_target; pthread_t pt; int nyield; int nblocks; };
 static T th[MAXT]; static int nth=0; static __thread int me=-1;
-static int active=0, window=0, liveness=0, inproc=0;
+static int active=0, window=0, liveness=0, inproc=0; static double g_overload=1.0;
 static unsigned long steps=0; static long vclock=0; static unsigned long stampctr=0;
 static unsigned long horizon=200000;
 
@@ -275,7 +275,7 @@ static void parse_args(int argc,char**argv){ params=new std::map<std::string,std
   // wall-clock limits per execution are meant for a machine that has a core for every job: on an overloaded machine (load average
   // above the number of cores) they are stretched by that ratio (at most 30x), so that a slow execution is not taken for a hang
   { double l1=0; FILE* f=fopen("/proc/loadavg","r"); if(f){ if(fscanf(f,"%lf",&l1)!=1) l1=0; fclose(f);} long nc=sysconf(_SC_NPROCESSORS_ONLN); if(nc<1) nc=1;
-    double k=l1/(double)nc; if(k>1.0){ if(k>30.0) k=30.0; O.exec_timeout=(int)(O.exec_timeout*k)+1; } } }
+    double k=l1/(double)nc; if(k>1.0){ if(k>30.0) k=30.0; O.exec_timeout=(int)(O.exec_timeout*k)+1; g_overload=k; } } }
 // -1 = command line not parsed yet (static initialisers of the code under test run atomics before main): callers must not cache that
 extern "C" int vf_mode_hb(){ return params ? (int)params->count("hb") : -1; }
 extern "C" int vf_mode_tso(){ return params ? (int)params->count("tso") : -1; }
@@ -416,7 +416,7 @@ extern "C" int vf_main_cases(int argc,char**argv,long ncases,void(*scenario)(lon
   long only_case=vf_param_int("case",-1); int jobs=O.jobs; bool replaying=!O.replay.empty()||only_case>=0; if(replaying) jobs=1;
   IPShared* sh=(IPShared*)mmap(0,sizeof(IPShared)*jobs,PROT_READ|PROT_WRITE,MAP_SHARED|MAP_ANONYMOUS,-1,0);
   double t0=now_s(); std::vector<pid_t> pids; fflush(stdout);
-  ip_case_timeout=(int)vf_param_int("case_timeout",O.exec_timeout>20?O.exec_timeout:180);
+  ip_case_timeout=(int)vf_param_int("case_timeout",O.exec_timeout>20?O.exec_timeout:180); if(vf_param_int("case_timeout",-1)>0) ip_case_timeout=(int)(ip_case_timeout*g_overload)+1;   // an explicit limit is stretched like the others
   for(int j=0;j<jobs;j++){ pid_t p=fork(); if(p==0){ signal(SIGALRM,ip_alarm); IP=&sh[j]; ip_worker=j; R=&ipres; prefix=ipprefix; active=1; inproc=1; window=1; me=0; nth=1; th[0].st=ST_RUN; horizon=~0ul; std::set<uint64_t> outs; ip_out=&outs;
       for(long c=(only_case>=0?only_case:j); c<ncases; c+=jobs){ ip_case=c; IP->cases++;
         struct PN{ std::vector<unsigned char> p; int cost; }; std::vector<PN> stack; PN r0; r0.cost=0;
